@@ -6,6 +6,7 @@
 //   (static_matrix ops: harness/h_direct_sm.cpp)
 //   direct_cmk_check rev A perm                real amgcl::reorder::cuthill_mckee<rev>::get   (perm = its output, embedded by generate)
 //   direct_qr_check arith order m n A Qk R     real amgcl::detail::QR<Q|double>::factorize    (Qk, R = its output, embedded by generate)
+//   direct_qr_model order m n A | direct_qr_solve_model order m n A b    real QR<Q> vs the loop-by-loop Lean model (exact)
 //   direct_qr_solve_check arith order m n A b x   real QR<Q|double>::solve                    (x = its output, embedded by generate)
 // For the V-grade ops the op line carries the implementation's output; `execute` re-runs the real code and fails the
 // oracle if the embedded output is not what the code returns now.
@@ -351,6 +352,22 @@ static Result execute(const Toks &t) {
         return run_qr_check(c);
     } else if (op == "direct_qr_solve_check") {
         return run_qr_solve_check(c);
+    } else if (op == "direct_qr_model" || op == "direct_qr_solve_model") {
+        // exact correspondence with the loop-by-loop Lean model of QR (real scalars, rsqrt): factorised buffer + Q(i,j), solve
+        const bool slv = op == "direct_qr_solve_model";
+        long order = c.nat(), m = c.nat(), n = c.nat();
+        if (order < 0 || order > 1 || m < 1 || n < 1 || m > 64 || n > 64) throw bad_input("shape");
+        std::vector<Q> A = qr_vals(c, m * n), b; if (slv) b = qr_vals(c, m); c.expect_end();
+        r.nontrivial = m * n >= 2; r.tag(slv ? "qr_solve_model" : "qr_model"); r.tag(order == 0 ? "row_major" : "col_major");
+        if (slv) { Line l; l << qr_solve<Q>(order, m, n, A, b); r.out = l.get(); }
+        else {
+            std::vector<Q> buf(m * n);
+            for (long i = 0; i < m; ++i) for (long j = 0; j < n; ++j) buf[order == 0 ? i * n + j : j * m + i] = A[i * n + j];
+            amgcl::detail::QR<Q> qr; qr.factorize((int)m, (int)n, buf.data(), order == 0 ? amgcl::detail::row_major : amgcl::detail::col_major);
+            std::vector<Q> qq; for (long i = 0; i < m; ++i) for (long j = 0; j < n; ++j) qq.push_back(qr.Q((int)i, (int)j));
+            for (long i = 0; i < std::min(m, n); ++i) for (long j = 0; j < i; ++j) if (qr.R((int)i, (int)j) != 0) r.fail("R(i,j) != 0 below the diagonal");
+            Line l; l << buf << qq; r.out = l.get();
+        }
     } else {
         r.out = "bad-op";
     }
@@ -545,6 +562,14 @@ static void generate_inner(Rng &rng, const Opts &o, std::vector<std::string> &li
         if (deg == 2 && k % 10 == 2) for (auto &x : A) x = Q(0);                                                                                             // zero matrix
         emit_qr_check(lines, 1, order, m, n, A);
         if (m * n <= 36) emit_qr_check(lines, 0, order, m, n, A);
+        // faithful-model correspondence at Q (no embedded output): exact-root family and small general dyadic data
+        { long me = rng.range(1, mx), ne = rng.range(1, mx); if (std::min(me, ne) > 6) { if (rng.coin()) me = rng.range(1, 6); else ne = rng.range(1, 6); }
+          std::vector<Q> B = exact_root_matrix(rng, me, ne, rng.coin(1, 3));
+          { Line l; l << "direct_qr_model" << order << me << ne; for (auto &v : B) l << v; lines.push_back(l.get()); }
+          { Line l; l << "direct_qr_solve_model" << order << me << ne; for (auto &v : B) l << v; for (auto &v : dyadic_vals(rng, me, 10)) l << v; lines.push_back(l.get()); }
+          long mg = rng.range(1, 5), ng = rng.range(1, 5); std::vector<Q> G = dyadic_vals(rng, mg * ng, (int)rng.range(0, 40));
+          { Line l; l << "direct_qr_model" << order << mg << ng; for (auto &v : G) l << v; lines.push_back(l.get()); }
+          { Line l; l << "direct_qr_solve_model" << order << mg << ng; for (auto &v : G) l << v; for (auto &v : dyadic_vals(rng, mg, 10)) l << v; lines.push_back(l.get()); } }
         // solve: exact-root full-rank systems at Q (tall: least squares, wide: minimum norm), well-conditioned dyadic systems in double
         { long mm = rng.range(1, mx), nn = rng.range(1, std::min<long>(mm, 7)); std::vector<Q> B = exact_root_matrix(rng, mm, nn, false);
           std::vector<Q> b = dyadic_vals(rng, mm, 10); emit_qr_solve(lines, 0, order, mm, nn, B, b);
@@ -561,6 +586,8 @@ static void generate_inner(Rng &rng, const Opts &o, std::vector<std::string> &li
     lines.push_back("direct_inv_dense 2 4 1 2 3 4 3 0 0 0 2 0 0");                               // t too short
     lines.push_back("direct_cmk_check 0 2 3 1 0 1 1 1 1 2 0 1");                                 // not square
     lines.push_back("direct_qr_check 0 0 2 2 1 0 0 1 1 0 0 1 1 0 0");                            // too few entries
+    lines.push_back("direct_qr_model 0 2 2 1 0 0");                                                // too few entries
+    lines.push_back("direct_qr_solve_model 2 2 2 1 0 0 1 1 1");                                    // storage order out of range
 }
 
 static void generate(Rng &rng, const Opts &o, std::vector<std::string> &lines) {
